@@ -31,12 +31,12 @@ MANIFEST = dict(
     text=("THEOREMS (all inputs): the formula parser model (get_elts_in_species exactly as coded) parses the print of any "
           "well-formed formula to its denotation (parseFormula_print_roundtrip), is additive over concatenation "
           "(parseFormula_append), multiplies a parenthesised group (parseFormula_paren) and a ':n' hydrate tail "
-          "(parseFormula_hydrate); inventory is additive over parts and linear in amounts (inventory_add, "
-          "inventory_scale); the totals step() hands to the solver plus what stays in pure phases/solid solutions equal "
+          "(parseFormula_hydrate); inventory is additive over parts and linear in amounts (inventory_parts, "
+          "inventory_add, amount_linear, solution_linear); the totals step() hands to the solver plus what stays in pure phases/solid solutions equal "
           "inventory(solution or mix) + stoich*stepAmount + kinetic increment + every present reactant, H, O and charge "
           "included (assemble_total); for any solver output passing the MB/MH/MH2O/CB gate inventory(after) = "
           "inventory(before) + reaction within the tolerance (partition_conserves); incremental step amounts add up to "
-          "the cumulative amount (stepAmount_incremental_sum, stepAmount_list_prefix); mixing totals are sum f_j*totals_j "
+          "the cumulative amount (stepAmount_incremental_sum, stepAmount_list_prefix, stepAmount_list_cumulative); mixing totals are sum f_j*totals_j "
           "and permutation invariant (mix_linear, mix_perm). CORRESPONDENCE (every run, against /repo's working tree): "
           "(a) parser model vs real get_elts_in_species/compute_gfw on every species/phase formula of all shipped "
           "databases + generated formulas; (b) stepAmount/kinStep vs add_reaction/Current_step on generated blocks; "
